@@ -1,13 +1,195 @@
-"""C09 -- placeholder until the check is built"""
+"""C09 -- the reference water level is the origin of the master curve"""
+
+import os
+import sqlite3
+
+from .. import core, curves_common, data, gen_planted, oracle_curves
+
 PROPERTY = 'C09'
 LEVEL = 'exploration'
-SHARDS = {'quick': 1, 'thorough': 1}
-RULE = 'not built yet'
+SHARDS = {'quick': 4, 'thorough': 16}
+STEPS = [1.0, 0.5, 0.1, 0.2, 0.3, 0.25, 2.5, 5.0, 0.7]
+RULE = (
+    'Planted and noisy datasets (water levels from -1350 to +2400 mm) x grid steps {1, .5, .1, .2, .3, .25, 2.5, 5, '
+    '.7} mm x curve kind {rise, recession}: the curve is assembled without a reference (origin must be the highest '
+    'level), then re-assembled with -r k*step for the levels k of the curve (quick: <= 24 per combination, thorough: '
+    'all up to 400), passed as the float k*step and, through the CLI, as the decimal text a user would type '
+    '("%.10g"); the walker recomputes the master curve from the base tables and requires 0 at level k (1e-6 s / 1e-9 '
+    'mm).  Off-grid references (k + {.5, .25, .01, .001}) * step must be refused with nothing written.  Non-trivial: '
+    '(step, k) with k*step not exactly representable; distinct (kind, step, k) counted.'
+)
+ASSUMPTIONS = [
+    'only levels present in the assembled curve are used as references',
+    'harness convenience: the curve tables are emptied between two references on the same classified dataset',
+]
+SIZES = {'quick': dict(datasets=2, steps=3, levels=24, cli=6), 'thorough': dict(datasets=6, steps=9, levels=400, cli=40)}
+REQUIRED = {
+    tier: {
+        'on-grid-references-accepted-and-origin-checked': 300,
+        'off-grid-references-refused': 40,
+        'default-origin-checked': 10,
+        'references-inexact-in-binary': 100,
+        'references-via-cli-text': 10,
+        'negative-references': 50,
+    }
+    for tier in ('quick', 'thorough')
+}
+MIN_NONTRIVIAL = {'quick': 100, 'thorough': 3000}
+
+
+def curve_rows(connection, kind):
+    table = 'recession_interval' if kind == 'recession' else 'rising_interval'
+    return connection.execute('SELECT count(*) FROM {}'.format(table)).fetchone()[0]
+
+
+def check_combo(ctx, case, kind, gs, rng, max_levels, n_cli, index):
+    import spowtd.zeta_grid as zg
+    import spowtd.classify as cl
+
+    rec = ctx.rec
+    case = dict(case, grid_step=gs)
+    connection, _, exc = curves_common.build_dataset(ctx, case, 'function')
+    if exc is not None:
+        rec.hit('dataset-could-not-be-built')
+        if connection is not None:
+            connection.close()
+        return
+    exc = curves_common.run_curve(connection, kind)
+    if exc is not None:
+        key, desc = curves_common.classify_outcome(exc)
+        rec.hit(kind + ':' + key)
+        connection.close()
+        return
+    rec.case()
+    findings, stats = oracle_curves.walk_curve(connection, kind, None)
+    for p, k, w in findings:
+        if p == PROPERTY:
+            rec.violation('default-origin:' + k, w, case, 'combo:' + kind)
+    if not any(p == PROPERTY for p, _, _ in findings):
+        rec.hit('default-origin-checked')
+    levels = stats['levels']
+    if len(levels) > max_levels:
+        picked = sorted(set([levels[0], levels[-1]] + rng.sample(levels, max_levels - 2)))
+    else:
+        picked = levels
+    db = None
+    if n_cli:
+        db = os.path.join(ctx.workdir, 'c09-{}.sqlite3'.format(index))
+        if os.path.exists(db):
+            os.remove(db)
+        disk = sqlite3.connect(db)
+        connection.backup(disk)
+        disk.close()
+    for j, k in enumerate(picked):
+        rec.case()
+        ref = k * gs
+        via_cli = db is not None and j < n_cli
+        curves_common.clear_curve(connection, kind)
+        if via_cli:
+            disk = sqlite3.connect(db)
+            curves_common.clear_curve(disk, kind)
+            disk.close()
+            text = '{:.10g}'.format(ref)
+            # argparse would take "-12.5" for an option: pass as -r=-12.5
+            status, exc = data.cli([kind, db, '--reference-zeta-mm={}'.format(text)])
+            if exc is None and status != 0:
+                exc = RuntimeError('exit status {}'.format(status))
+            target = sqlite3.connect(db)
+            rec.hit('references-via-cli-text')
+        else:
+            exc = curves_common.run_curve(connection, kind, ref)
+            target = connection
+        witness = {'kind': kind, 'grid_step_mm': gs, 'level': k, 'reference_mm': ref, 'via': 'cli' if via_cli else 'function'}
+        if exc is not None:
+            key, desc = curves_common.classify_outcome(exc)
+            if desc['origin'] == 'harness':
+                rec.inconclusive_because('harness exception: {}'.format(desc))
+            else:
+                witness['exception'] = desc
+                rec.violation('on-grid-reference-refused' if key == 'refusal:reference-off-grid' else 'on-grid-reference-fails:' + key,
+                              witness, dict(case, reference_level=k, curve=kind), 'combo:' + kind)
+        else:
+            f2, _ = oracle_curves.walk_curve(target, kind, k)
+            bad = [(p, kk, w) for p, kk, w in f2 if p == PROPERTY]
+            for p, kk, w in bad:
+                rec.violation(kk, dict(witness, detail=w), dict(case, reference_level=k, curve=kind), 'combo:' + kind)
+            if not bad:
+                rec.hit('on-grid-references-accepted-and-origin-checked')
+        if via_cli:
+            target.close()
+        if ref < 0:
+            rec.hit('negative-references')
+        import fractions
+        if fractions.Fraction(ref) != fractions.Fraction(k) * fractions.Fraction(str(gs)):
+            rec.hit('references-inexact-in-binary')
+            rec.mark_nontrivial('{}|{}|{}'.format(kind, gs, k))
+        if len(rec.samples) < 3 and j == 1:
+            rec.sample(witness)
+    # off-grid references
+    for frac in (0.5, 0.25, 0.01, 0.001):
+        k = rng.choice(levels)
+        ref = (k + frac) * gs
+        rec.case()
+        curves_common.clear_curve(connection, kind)
+        exc = curves_common.run_curve(connection, kind, ref)
+        if exc is None:
+            rec.violation('off-grid-reference-accepted', {'kind': kind, 'grid_step_mm': gs, 'reference_mm': ref, 'fraction_of_step': frac},
+                          dict(case, off_grid_reference=ref, curve=kind), 'combo:' + kind)
+            continue
+        key, desc = curves_common.classify_outcome(exc)
+        if key == 'refusal:reference-off-grid' and curve_rows(connection, kind) == 0:
+            rec.hit('off-grid-references-refused')
+        elif desc['origin'] == 'harness':
+            rec.inconclusive_because('harness exception: {}'.format(desc))
+        else:
+            rec.violation('off-grid-reference-not-cleanly-refused:' + key, {'exception': desc, 'reference_mm': ref, 'rows_left': curve_rows(connection, kind)},
+                          dict(case, off_grid_reference=ref, curve=kind), 'combo:' + kind)
+    connection.close()
+    if db and os.path.exists(db):
+        os.remove(db)
 
 
 def run(ctx):
-    ctx.rec.inconclusive_because('check not built yet')
+    s = SIZES[ctx.tier]
+    rng = ctx.rng('c09')
+    combos = 0
+    for d in range(s['datasets']):
+        case = gen_planted.gen(rng) if d % 2 == 0 else gen_planted.gen_noisy(rng)
+        # rotate the step list so that the shards of a run cover all steps
+        start = (ctx.shard * s['steps'] + d * 4) % len(STEPS)
+        steps = [STEPS[(start + i) % len(STEPS)] for i in range(s['steps'])]
+        for gs in steps:
+            for kind in ('rise', 'recession'):
+                check_combo(ctx, case, kind, gs, rng, s['levels'], max(1, s['cli'] // (s['datasets'] * s['steps'])), combos)
+                combos += 1
+                ctx.rec.hit('step:{}'.format(gs))
 
 
 def replay(ctx, case, module=None):
-    ctx.rec.inconclusive_because('check not built yet')
+    import spowtd  # noqa: F401
+
+    rng = core.make_rng('replay')
+    kind = case.get('curve', 'recession')
+    gs = case['grid_step']
+    connection, _, exc = curves_common.build_dataset(ctx, case, 'function')
+    if exc is not None:
+        ctx.rec.inconclusive_because('dataset could not be built')
+        return
+    ctx.rec.case()
+    if 'reference_level' in case:
+        k = case['reference_level']
+        exc = curves_common.run_curve(connection, kind, k * gs)
+        if exc is not None:
+            key, desc = curves_common.classify_outcome(exc)
+            ctx.rec.violation('on-grid-reference-refused' if key == 'refusal:reference-off-grid' else 'on-grid-reference-fails:' + key, {'exception': desc}, None)
+            return
+        f2, _ = oracle_curves.walk_curve(connection, kind, k)
+        for p, kk, w in f2:
+            if p == PROPERTY:
+                ctx.rec.violation(kk, w, None)
+    elif 'off_grid_reference' in case:
+        exc = curves_common.run_curve(connection, kind, case['off_grid_reference'])
+        if exc is None:
+            ctx.rec.violation('off-grid-reference-accepted', {'reference_mm': case['off_grid_reference']}, None)
+    else:
+        check_combo(ctx, case, kind, gs, rng, 24, 0, 0)
